@@ -483,6 +483,9 @@ func unaryOp(pkg *Package, tok token.Token, args []*internal.Elem) constant.Valu
 			if isUnsigned(args[0].Type) {
 				prec = uint(pkg.Sizeof(args[0].Type) * 8)
 			}
+			if ia := constant.ToInt(a); tok == token.XOR && ia.Kind() == constant.Int {
+				a = ia // see doBinaryOp
+			}
 			if !constUnaryOpDefined(tok, a) {
 				panic(fmt.Errorf("invalid operation: operator %v not defined on %v", tok, a))
 			}
@@ -582,9 +585,9 @@ func constBinaryOpDefined(a constant.Value, tok token.Token, b constant.Value) e
 			ok = ka == constant.Bool
 		case token.ADD:
 			ok = ka == constant.Float || ka == constant.String
-		case token.SUB, token.MUL, token.QUO, token.QUO_ASSIGN:
+		case token.SUB, token.MUL, token.QUO:
 			ok = ka == constant.Float
-		case token.REM, token.AND, token.OR, token.XOR, token.AND_NOT:
+		case token.REM, token.AND, token.OR, token.XOR, token.AND_NOT, token.QUO_ASSIGN:
 			ok = a.Kind() == constant.Int && b.Kind() == constant.Int
 		case token.EQL, token.NEQ:
 			ok = ka != constant.Unknown
@@ -607,6 +610,14 @@ func constBinaryOpDefined(a constant.Value, tok token.Token, b constant.Value) e
 func doBinaryOp(a constant.Value, tok token.Token, b constant.Value, ctx []*internal.Elem) constant.Value {
 	switch binaryOpKinds[tok] {
 	case binaryOpNormal:
+		switch tok {
+		case token.REM, token.AND, token.OR, token.XOR, token.AND_NOT, token.QUO_ASSIGN:
+			// integer operators: an integer-valued operand may still have a float or complex
+			// representation (a converted constant such as int(2.0) keeps its value)
+			if ia, ib := constant.ToInt(a), constant.ToInt(b); ia.Kind() == constant.Int && ib.Kind() == constant.Int {
+				a, b = ia, ib
+			}
+		}
 		if err := constBinaryOpDefined(a, tok, b); err != nil {
 			panic(err)
 		}
